@@ -250,6 +250,38 @@ def _zst_year_end_transitions(zones):
     return out
 
 
+def run_multi_case(case):
+    """A zone list with names the library does not know in between: every known zone gets exactly the items it gets when
+    generated alone, the unknown names get none (the generators document that they skip such names)."""
+    import logging
+    logging.disable(logging.CRITICAL)
+    lib, zones, start, until = case["lib"], case["zones"], case["start"], case["until"]
+    if lib == "pytz":
+        from compare_pytz.tdgenerator import TestDataGenerator
+    else:
+        from compare_dateutil.tdgenerator import TestDataGenerator
+    res = {"case": case, "problems": [], "n_items": 0}
+    try:
+        g = TestDataGenerator(start, until, 22, True)
+        g.create_test_data(zones)
+        together = g.test_data
+        for z in zones:
+            g1 = TestDataGenerator(start, until, 22, True)
+            g1.create_test_data([z])
+            alone = g1.test_data.get(z)
+            res["n_items"] += len(alone or [])
+            if together.get(z) != alone:
+                res["problems"].append(("zone-list", "zone %r generated inside the list %r has %s items, alone it has %s (first item %r vs %r)" % (
+                    z, zones, len(together.get(z) or []), len(alone or []), (together.get(z) or [None])[0], (alone or [None])[0])))
+                break
+        extra = sorted(set(together) - set(zones))
+        if extra:
+            res["problems"].append(("zone-list", "test data has zones that were not asked for: %r" % extra))
+    except BaseException as e:
+        res["problems"].append(("generator-exception", "%s: %s" % (type(e).__name__, str(e)[:200])))
+    return res
+
+
 def run_case_list(cs):
     """several cases one after the other in the same process"""
     return [run_case(c) for c in cs]
@@ -293,6 +325,12 @@ def run(ctx):
     rnd = random.Random(ctx.seed)
     if ctx.replay:
         r = json.load(open(ctx.replay))["replay"]
+        if "multi_case" in r:
+            res = run_multi_case(r["multi_case"])
+            for kind, msg in res["problems"]:
+                ctx.violation("%s:%s" % (r["multi_case"]["lib"], kind), {"multi_case": r["multi_case"]}, msg)
+            ctx.evaluations = 1
+            return
         res = run_case(r["case"])
         for kind, msg in res["problems"]:
             ctx.violation("%s:%s" % (r["case"]["lib"], kind), {"case": r["case"]}, msg)
@@ -374,6 +412,24 @@ def run(ctx):
         if "items" in res and res["items"]:
             rendered.append(res)
     ctx.count("cases_with_transition_in_last_interval", late)
+    # zone lists with unknown names in between
+    mcases = []
+    for lib in ("pytz", "dateutil"):
+        zs_ = all_zones(lib)
+        for k in range(6 if thorough else 3):
+            zl = rnd.sample(zs_, 4)
+            zl.insert(1 + k % 3, "Mars/Olympus_Mons")
+            if k % 2:
+                zl.insert(0, "Nowhere/At_All")
+            y0 = rnd.randrange(2000, 2035)
+            mcases.append(dict(lib=lib, zones=zl, start=y0, until=y0 + 2))
+    for res in vt.pmap(run_multi_case, mcases):
+        c = res["case"]
+        ctx.evaluations += res["n_items"]
+        ctx.count("zone_list_cases_with_unknown_names")
+        nt.add((c["lib"], "zone-list", tuple(c["zones"])))
+        for kind, msg in res["problems"]:
+            ctx.violation("%s:%s" % (c["lib"], kind), {"multi_case": c}, "%s [%d,%d): %s" % (c["lib"], c["start"], c["until"], msg))
     # ---- validator.zstdgenerator on the checked-in zonedbpy ----
     import pytz
     sys_path_tools = os.path.join(vt.REPO, "tools")
